@@ -34,12 +34,14 @@ type txRecord struct {
 }
 
 type concDB struct {
-	base    *dbSuite
-	seq     int64
-	seqOf   sync.Map // tx id -> seq
-	recs    []txRecord
-	recsMu  sync.Mutex
-	yield   int
+	base   *dbSuite
+	seq    int64
+	seqOf  sync.Map // tx id -> seq
+	recs   []txRecord
+	recsMu sync.Mutex
+	yield  int
+	opened bool
+	active int64 // workers still running
 }
 
 var concByDir sync.Map // dir -> *concDB
@@ -58,6 +60,13 @@ func concHook(op, path string, off int64, data []byte) error {
 	if op == "write" || op == "sync" || op == "unlock" || op == "lock-req" {
 		if rand.Intn(4) == 0 {
 			runtime.Gosched()
+		}
+	}
+	// Merge is between two segments here (one just rewritten, about to be unlinked): let the other
+	// goroutines run for a moment in exactly that state
+	if op == "remove" || op == "create" || op == "truncate" {
+		if rand.Intn(2) == 0 {
+			time.Sleep(300 * time.Microsecond)
 		}
 	}
 	return nil
@@ -93,17 +102,21 @@ func runConc(args []string) {
 	var dbs []*concDB
 	var wg sync.WaitGroup
 	r0 := rand.New(rand.NewSource(*seed))
+	// all databases are opened first (newCase sets the package-level hook), then the workers start
 	for d := 0; d < *ndbs; d++ {
 		base := &dbSuite{profile: *profile}
 		base.newCase(d)
-		nutsdb.VerifFSHook = concHook
 		seg := []int{128, 200, 256, 512}[r0.Intn(4)]
 		if *profile == "backup" {
 			seg = 65536
 		}
+		if *merge {
+			// small segments: many files to merge, and transactions that span several of them
+			seg = []int{100, 128, 160}[r0.Intn(3)]
+		}
 		openLine := fmt.Sprintf("open %d %d %d %d %d", *mode, r0.Intn(2), r0.Intn(2), r0.Intn(2), seg)
 		res := base.exec(openLine)
-		c := &concDB{base: base}
+		c := &concDB{base: base, opened: res == "ok"}
 		first := []string{openLine + " => " + res}
 		if *merge {
 			first = append(first, "concmerge => ok")
@@ -111,27 +124,33 @@ func runConc(args []string) {
 		c.recs = append(c.recs, txRecord{seq: 0, lines: first})
 		concByDir.Store(base.dir, c)
 		dbs = append(dbs, c)
-		if res != "ok" {
+	}
+	nutsdb.VerifFSHook = concHook
+	for d, c := range dbs {
+		if !c.opened {
 			continue
 		}
+		atomic.StoreInt64(&c.active, int64(*workers))
 		for g := 0; g < *workers; g++ {
 			wg.Add(1)
-			go func(c *concDB, g int) {
+			go func(c *concDB, g, d int) {
 				defer wg.Done()
+				defer atomic.AddInt64(&c.active, -1)
 				r := rand.New(rand.NewSource(*seed*7919 + int64(g)*104729 + int64(d)))
 				ws := &dbSuite{profile: *profile, db: c.base.db, dir: c.base.dir, opt: c.base.opt, scratch: c.base.scratch,
-					usedKeys: map[string][][]byte{}, opened: true}
+					usedKeys: map[string][][]byte{}, opened: true, faultAt: -1}
 				for t := 0; t < *txs; t++ {
 					c.oneTx(ws, r)
 				}
-			}(c, g)
+			}(c, g, d)
 		}
 		if *merge {
 			wg.Add(1)
 			go func(c *concDB) {
 				defer wg.Done()
-				for i := 0; i < 6; i++ {
-					time.Sleep(time.Duration(2+i) * time.Millisecond)
+				// Merge again and again for as long as the workers run
+				for i := 0; atomic.LoadInt64(&c.active) > 0 && i < 400; i++ {
+					time.Sleep(time.Duration(1+i%3) * time.Millisecond)
 					func() {
 						defer func() { recover() }()
 						c.base.db.Merge()
